@@ -173,6 +173,19 @@ def d2_symmetrised(ctx, mod):
                         bad.append(x)
     ctx.check(rule, 'correlators.py:Corr.GEVP#reads-through-symmetrised', not bad, 'the unsymmetrised correlator is only tested for None (%d sites), matrices come from symmetric_corr' % n,
               'matrix read from the unsymmetrised correlator: %s' % [unparse(b) for b in bad], mod.loc(bad[0]) if bad else '')
+    # the symmetry test itself: every pair i < j of every defined timeslice is compared
+    ims = mod.func('Corr.is_matrix_symmetric')
+    loops = [s_ for s_ in statements(ims) if isinstance(s_, ast.For)]
+    its = [unparse(l.iter) for l in loops]
+    ok = its == ['range(self.T)', 'range(self.N)', 'range(i + 1, self.N)']
+    brk = [x for x in walk(ims) if isinstance(x, ast.Break)]
+    rets = [unparse(r.value) for r in statements(ims) if isinstance(r, ast.Return)]
+    ifs = [s_ for s_ in statements(ims) if isinstance(s_, ast.If)]
+    skip_ok = all(all(isinstance(b, (ast.Continue, ast.Return, ast.Raise)) for b in i_.body) for i_ in ifs)
+    hashcmp = any('hash(self[t][i, j]) != hash(self[t][j, i])' in unparse(i_.test) and unparse(i_.body[0]) == 'return False' for i_ in ifs)
+    ctx.check(rule, 'correlators.py:Corr.is_matrix_symmetric#all-pairs', ok and not brk and skip_ok and hashcmp and rets == ['False', 'True'],
+              'all pairs (i, j > i) of every defined timeslice are compared; shortcuts skip a single pair only',
+              'pair loops %s, break statements %d, returns %s: some pairs are never compared' % (its, len(brk), rets), mod.loc(ims))
     gm = mod.func('Corr.GEVP._get_mat_at_t')
     r = sorted(unparse(s.value) for s in statements(gm) if isinstance(s, ast.Return))
     ctx.check(rule, 'correlators.py:Corr.GEVP._get_mat_at_t', r == ['np.vectorize(lambda x: x.value)(symmetric_corr[t])', 'symmetric_corr[t]'], 'matrix at t from the symmetrised correlator (values or Obs)', 'returns %s' % r)
@@ -229,8 +242,81 @@ def d4_validation(ctx, mod):
     # _sort_vectors returns original objects permuted, reference slot untouched
     sv = mod.func('_sort_vectors')
     apps = [unparse(c.args[0]) for c in walk(sv) if isinstance(c, ast.Call) and isinstance(c.func, ast.Attribute) and c.func.attr == 'append' and unparse(c.func.value) == 'sorted_vec_set']
-    ok = sorted(apps) == sorted(['None', '[vec_set_in[t][k] for k in best_perm]', 'vec_set_in[t]'])
+    ok = sorted(a_ for a_ in apps if not a_.startswith('[')) == ['None', 'vec_set_in[t]'] and sum(1 for a_ in apps if a_.startswith('[vec_set_in[t][')) == 1
     ctx.check(rule, 'correlators.py:_sort_vectors#outputs', ok, 'each timeslice yields None, a permutation of its own vectors, or (at ts) its vectors unchanged', 'appends %s' % apps)
+    # which timeslices are passed through unsorted: exactly t == ts
+    pas = [c for c in walk(sv) if isinstance(c, ast.Call) and isinstance(c.func, ast.Attribute) and c.func.attr == 'append' and unparse(c.func.value) == 'sorted_vec_set' and unparse(c.args[0]) == 'vec_set_in[t]']
+    if len(pas) == 1:
+        def evc(e, t_, ts_):
+            if isinstance(e, ast.UnaryOp) and isinstance(e.op, ast.Not):
+                v = evc(e.operand, t_, ts_)
+                return None if v is None else not v
+            if isinstance(e, ast.Compare) and len(e.ops) == 1 and {unparse(e.left), unparse(e.comparators[0])} == {'t', 'ts'}:
+                a, b = (t_, ts_) if unparse(e.left) == 't' else (ts_, t_)
+                return {ast.Eq: a == b, ast.NotEq: a != b, ast.Lt: a < b, ast.LtE: a <= b, ast.Gt: a > b, ast.GtE: a >= b}[type(e.ops[0])]
+            return None
+        bad = []
+        for t_ in range(0, 6):
+            passed = True
+            unknown = False
+            for tst, pol in guards_of(mod, pas[0], stop=sv):
+                if 'vec_set[t] is None' in unparse(tst):
+                    continue
+                v = evc(tst, t_, 2)
+                if v is None:
+                    unknown = True
+                    break
+                if v != pol:
+                    passed = False
+            if unknown:
+                bad = None
+                break
+            if passed != (t_ == 2):
+                bad.append(t_)
+        if bad is None:
+            ctx.unrec(rule, 'correlators.py:_sort_vectors#pass-through', 'cannot evaluate the guards of the unsorted pass-through')
+        else:
+            ctx.check(rule, 'correlators.py:_sort_vectors#pass-through', not bad, 'only the reference timeslice ts is passed through unsorted, every other defined timeslice is sorted',
+                      'with ts=2 the timeslices %s are %s' % (bad, 'passed through unsorted / sorted wrongly'), mod.loc(pas[0]))
+    else:
+        ctx.unrec(rule, 'correlators.py:_sort_vectors#pass-through', 'pass-through append not found')
+    # direction of the permutation: the score places vector k of timeslice t into row perm[k] of the reference set (vector k <-> state perm[k]);
+    # the output must therefore hold vector k at position perm[k]
+    st = [s_ for s_ in statements(sv) if isinstance(s_, ast.Assign) and isinstance(s_.targets[0], ast.Subscript) and unparse(s_.targets[0].value) == 'new_sorting']
+    outc = [c for c in walk(sv) if isinstance(c, ast.Call) and isinstance(c.func, ast.Attribute) and c.func.attr == 'append' and unparse(c.func.value) == 'sorted_vec_set'
+            and isinstance(c.args[0], ast.ListComp)]
+    key = 'correlators.py:_sort_vectors#permutation-direction'
+    if len(st) != 1 or len(outc) != 1:
+        ctx.unrec(rule, key, 'score store / output comprehension not found')
+    else:
+        tg = st[0].targets[0]
+        row = tg.slice.elts[0] if isinstance(tg.slice, ast.Tuple) else tg.slice
+        item = st[0].value.slice if isinstance(st[0].value, ast.Subscript) else None
+        # score: item index k, row index perm[k]  -> 'item->position'   |  item index perm[k], row index k -> 'position->item'
+        def is_perm_of(e, var):
+            return isinstance(e, ast.Subscript) and isinstance(e.value, ast.Name) and 'perm' in e.value.id and unparse(e.slice) == var
+        score_dir = None
+        if item is not None and isinstance(item, ast.Name) and is_perm_of(row, item.id):
+            score_dir = 'item->position'
+        elif item is not None and isinstance(row, ast.Name) and is_perm_of(item, row.id):
+            score_dir = 'position->item'
+        lc = outc[0].args[0]
+        g = lc.generators[0]
+        elt_idx = lc.elt.slice if isinstance(lc.elt, ast.Subscript) else None
+        out_dir = None
+        if isinstance(g.iter, ast.Name) and 'perm' in g.iter.id and elt_idx is not None and unparse(elt_idx) == unparse(g.target):
+            out_dir = 'position->item'          # position j holds item perm[j]
+        elif isinstance(g.iter, ast.Call) and call_name(g.iter) == 'range' and elt_idx is not None and isinstance(elt_idx, ast.Call) and isinstance(elt_idx.func, ast.Attribute) \
+                and elt_idx.func.attr == 'index' and 'perm' in unparse(elt_idx.func.value) and unparse(elt_idx.args[0]) == unparse(g.target):
+            out_dir = 'item->position'          # position s holds the item k with perm[k] == s
+        elif isinstance(g.iter, ast.Call) and call_name(g.iter) == 'range' and is_perm_of(elt_idx, unparse(g.target)):
+            out_dir = 'position->item'
+        if score_dir is None or out_dir is None:
+            ctx.unrec(rule, key, 'cannot classify the permutation direction (score %s, output %s)' % (unparse(st[0]), unparse(lc)))
+        else:
+            ctx.check(rule, key, score_dir == out_dir, 'score and output use the permutation in the same direction (%s)' % score_dir,
+                      'the score matches vector k to reference state perm[k] (%s) but the output places vector perm[j] at position j (%s): the two agree only for '
+                      'permutations that are their own inverse, a cyclic reordering of three or more states is sorted wrongly' % (score_dir, out_dir), mod.loc(outc[0]))
     lp = [s for s in statements(sv) if isinstance(s, ast.For) and unparse(s.target) == 't']
     cs = C14.append_counts(lp[0].body, 'sorted_vec_set') if lp else set()
     ctx.check(rule, 'correlators.py:_sort_vectors#one-per-t', cs == {1}, 'one entry per timeslice', 'appends per iteration %s' % sorted(cs))
@@ -339,6 +425,9 @@ SELFTEST = [
     ('pencil-shift', 'pyerrors/mpm.py', "y2 = np.concatenate(matrix[:, :, 1:])", "y2 = np.concatenate(matrix[:, :, :p])", 'C16-D6'),
     ('pencil-z', 'pyerrors/mpm.py', "z = np.diag(1. / s[:k]) @ u[:, :k].T @ y1 @ vh.T[:, :k]", "z = np.diag(s[:k]) @ u[:, :k].T @ y1 @ vh.T[:, :k]", 'C16-D6'),
     ('pencil-hankel', 'pyerrors/mpm.py', "scipy.linalg.hankel(data[n][:n_data - p], data[n][n_data - p - 1:])", "scipy.linalg.hankel(data[n][:n_data - p], data[n][n_data - p:])", 'C16-D6'),
-    ('sortvec-returns-floats', 'pyerrors/correlators.py', "sorted_vec_set.append([vec_set_in[t][k] for k in best_perm])", "sorted_vec_set.append([vec_set[t][k] for k in best_perm])", 'C16-D4'),
+    ('sortvec-returns-floats', 'pyerrors/correlators.py', "sorted_vec_set.append([vec_set_in[t][best_perm.index(k)] for k in range(N)])", "sorted_vec_set.append([vec_set[t][best_perm.index(k)] for k in range(N)])", 'C16-D4'),
+    ('symmetry-test-break', 'pyerrors/correlators.py', "                    if self[t][i, j] is self[t][j, i]:\n                        continue", "                    if self[t][i, j] is self[t][j, i]:\n                        break", 'C16-D2'),
+    ('sortvec-early-times-unsorted', 'pyerrors/correlators.py', "        elif not t == ts:", "        elif t > ts:", 'C16-D4'),
+    ('fix-reverted-sortvec-direction', 'pyerrors/correlators.py', "sorted_vec_set.append([vec_set_in[t][best_perm.index(k)] for k in range(N)])", "sorted_vec_set.append([vec_set_in[t][k] for k in best_perm])", 'C16-D4'),
     ('benign-eigh-flip', 'pyerrors/correlators.py', "return scipy.linalg.eigh(Gt, G0, lower=True)[1].T[::-1]", "return np.flip(scipy.linalg.eigh(Gt, G0, lower=True)[1], axis=1).T", 'BENIGN'),
 ]
